@@ -100,7 +100,18 @@ impl<'d, 'b> G<'d, 'b> {
             };
         }
         let dd = depth - 1;
-        match self.d.below(22) {
+        match self.d.below(24) {
+            // a projection whose later segment carries generic arguments (GAT): both the leading parameter and
+            // whatever the arguments mention are used
+            22 => {
+                let t = self.plant_t(Pos::Use, "T::Gat<..>");
+                format!("{}::Member<{}>", t, self.ty_f(dd, "generic arg of a projection"))
+            }
+            23 => {
+                let t = self.plant_t(Pos::Use, "T::Gat<..>");
+                let l = self.plant_l(Pos::Use, "lifetime arg of a projection");
+                format!("{}::Assoc<{}, ({}, u8)>::Inner", t, l, self.ty_f(dd, "generic arg of a projection"))
+            }
             0 => format!("Vec<{}>", self.ty_f(dd, "generic arg")),
             1 => format!("std::collections::HashMap<{}, {}>", self.ty_f(dd, "generic arg"), self.ty(dd)),
             2 => format!("a::b<{}>::c", self.ty_f(dd, "generic arg in middle segment")),
